@@ -24,14 +24,19 @@ import (
 	"verif/ev"
 )
 
-const fixture = "/verif/fixtures/c17mod"
+const fixtureSrc = "/verif/fixtures/c17mod"
+
+// fixture is a private copy of fixtureSrc (a broken goose may write into the module it translates)
+var fixture string
+
 const modPath = "example.com/fix"
 
 type Event struct {
 	Pats   []string `json:"pats"`
 	Ignore bool     `json:"ignore"`
 	Flag   string   `json:"flag"`
-	DirArg bool     `json:"dirarg"` // run from elsewhere with -dir <module>
+	DirArg bool     `json:"dirarg"`        // run from elsewhere with -dir <module>
+	Out    string   `json:"out,omitempty"` // "" absolute -out; "rel": -out relative to the working directory; "default": no -out, run in the out dir (needs DirArg)
 }
 
 func (e Event) String() string {
@@ -44,6 +49,9 @@ func (e Event) String() string {
 	}
 	if e.DirArg {
 		s = "-dir <mod> " + s
+	}
+	if e.Out != "" {
+		s = "[-out " + e.Out + "] " + s
 	}
 	return s
 }
@@ -129,6 +137,17 @@ func invoke(prior State, e Event) runResult {
 		before[p] = stamp(fp)
 	}
 	args := []string{"-out", out}
+	switch e.Out {
+	case "rel":
+		from := fixture
+		if e.DirArg {
+			from = scratch
+		}
+		rel, _ := filepath.Rel(from, out)
+		args = []string{"-out", rel}
+	case "default":
+		args = nil
+	}
 	if e.Ignore {
 		args = append(args, "-ignore-errors")
 	}
@@ -139,6 +158,9 @@ func invoke(prior State, e Event) runResult {
 	if e.DirArg {
 		args = append(args, "-dir", fixture)
 		cwd = scratch
+	}
+	if e.Out == "default" {
+		cwd = out
 	}
 	args = append(args, e.Pats...)
 	cmd := exec.Command(gooseBin, args...)
@@ -368,6 +390,14 @@ func events(tier string) []Event {
 	}
 	out = append(out, Event{Pats: []string{"./good"}, Flag: "-typecheck"})
 	out = append(out, Event{Pats: []string{"./good", "./bad"}, DirArg: true}, Event{Pats: []string{"./..."}, DirArg: true, Ignore: true}, Event{Pats: []string{modPath + "/nested/inner2"}, DirArg: true})
+	for _, om := range []string{"rel", "default"} {
+		for _, da := range []bool{false, true} {
+			if om == "default" && !da {
+				continue
+			}
+			out = append(out, Event{Pats: []string{"./good", "./bad"}, DirArg: da, Out: om}, Event{Pats: []string{"./..."}, DirArg: da, Ignore: true, Out: om})
+		}
+	}
 	return out
 }
 
@@ -388,6 +418,11 @@ func main() {
 	start := time.Now()
 	scratch, _ = os.MkdirTemp("", "verif-c17-")
 	defer os.RemoveAll(scratch)
+	fixture = filepath.Join(scratch, "module")
+	if out, err := exec.Command("cp", "-r", fixtureSrc, fixture).CombinedOutput(); err != nil {
+		fmt.Fprintln(os.Stderr, "harness error: copying the fixture:", err, string(out))
+		os.Exit(3)
+	}
 	if *replay != "" {
 		var rf struct {
 			Replay struct {
@@ -441,6 +476,11 @@ func main() {
 		{},
 		{coqPath(modPath + "/good"): "(* garbage left by an older version *)\n", "example_com/fix/stale_pkg.v": "(* stale *)\n"},
 		{coqPath(modPath + "/good"): good, coqPath(modPath + "/bad"): "(* old partial output *)\n"},
+		// prior files related to the new content: longer with the new content as a prefix, a proper prefix of it, same length with another last byte, doubled
+		{coqPath(modPath + "/good"): good + "(* trailing text of an older version *)\n"},
+		{coqPath(modPath + "/good"): good[:len(good)/2]},
+		{coqPath(modPath + "/good"): good[:len(good)-1] + "#"},
+		{coqPath(modPath + "/good"): good + good, coqPath(modPath + "/nested/inner"): "\n"},
 	}
 	type node struct {
 		st   State
@@ -517,7 +557,7 @@ func main() {
 	os.RemoveAll(scratch)
 	os.Exit(acc.Done(ev.Finish{
 		Prop: "C17", Tier: *tier, Level: "model_checking", Start: start,
-		Rule:        "explicit-state BFS (depth 2) over invocations of the real goose binary on a fixture module (good, conversion-error, load-error, nested, build-tag-split, dashed/dotted package path): 13 pattern sets (relative, recursive, import path, mixed good/bad in both orders, duplicate, non-matching) x -ignore-errors x content flags (thorough: all four) x cwd / -dir, from three seed out-dir states (empty; garbage + stale file; identical + old partial file); state = out-dir tree (paths, content); oracle per transition: exit 0 iff every package selected by `go list -tags goose` translated, one file per translated package at the documented path with the content of its solo translation, failing packages write nothing unless -ignore-errors, no other file touched or created, unchanged content keeps inode and mtime; plus: partial output == translation of the package without the failing declaration, definitions of the build-tag package == functions of the files `go list -tags goose` selects",
+		Rule:        "explicit-state BFS (depth 2) over invocations of the real goose binary on a fixture module (good, conversion-error, load-error, nested, build-tag-split, dashed/dotted package path): 13 pattern sets (relative, recursive, import path, mixed good/bad in both orders, duplicate, non-matching) x -ignore-errors x content flags (thorough: all four) x cwd / -dir x -out absolute / relative to the working directory / defaulted, on a private copy of the fixture, from seven seed out-dir states (empty; garbage + stale file; identical + old partial file; new content + trailing text; proper prefix; same length, other last byte; doubled); state = out-dir tree (paths, content); oracle per transition: exit 0 iff every package selected by `go list -tags goose` translated, one file per translated package at the documented path with the content of its solo translation, failing packages write nothing unless -ignore-errors, no other file touched or created, unchanged content keeps inode and mtime; plus: partial output == translation of the package without the failing declaration, definitions of the build-tag package == functions of the files `go list -tags goose` selects",
 		Assumptions: []string{"file content is judged against the binary's own solo translation (placement, exit status and rewrite behaviour are what this property is about)", "a package that fails to load under -ignore-errors writes a stray file; the property speaks of conversion errors only, so that file is not judged", "permission-based out-dir states are not explored (the sandbox runs as root)"},
 	}))
 }
